@@ -225,6 +225,10 @@ structure LParams where
   renewOnce : Bool         -- `stop_backend_thread` installs a fresh `std::once_flag`
   stopClearsId : Bool      -- `Backend::stop()` resets `SignalHandlerContext::backend_thread_id` (repair of F23)
   atexitClearsId : Bool    -- so does the `atexit` handler registered by the signal-handler overload of `start`
+  /-- not a fact of the headers but the run-time option `BackendOptions::wait_for_queues_to_empty_before_exit` the
+      backend is started with (its default is extracted: `waitForQueuesDefault`). With it off `BackendWorker::_exit`
+      leaves at its first test: no queue is read any more, the failure counter is reported and the sinks are flushed -/
+  waitOnExit : Bool := true
   deriving DecidableEq, Repr, Inhabited
 
 /-- the code as repaired -/
@@ -337,10 +341,12 @@ def Sys.step (P : LParams) (s : Sys) : POp → Sys
   | .bg k => if s.life.running then { s with fe := s.fe.write k } else s
   | .life .stop =>
     -- `_exit` runs on the backend thread before the join: the drain (contract of `exitLoop`)
-    { life := s.life.step P .stop, fe := if s.life.running && !s.life.exited then s.fe.drain else s.fe }
+    -- with the option off `_exit` reads nothing more: what is still queued stays queued (a later `start` serves it)
+    { life := s.life.step P .stop, fe := if s.life.running && !s.life.exited && P.waitOnExit then s.fe.drain else s.fe }
   | .life .exit =>
     -- `atexit` handlers stop a running backend (drain + join); then `~ManualBackendWorker` runs `_exit()` once more
-    { life := s.life.step P .exit, fe := if s.life.exited then s.fe else s.fe.drain }
+    -- (`_options` of the worker are those of the last `start`; a worker that was never started has the defaults: drains)
+    { life := s.life.step P .exit, fe := if s.life.exited then s.fe else if P.waitOnExit || s.life.spawned == 0 then s.fe.drain else s.fe }
   | .life op => { s with life := s.life.step P op }
 
 def Sys.run (P : LParams) (s : Sys) (ops : List POp) : Sys := ops.foldl (Sys.step P) s
